@@ -1,9 +1,12 @@
 package hx
 
 import (
+	"bytes"
+	"context"
 	"fmt"
 	"path/filepath"
 	"sort"
+	"time"
 
 	"github.com/PowerDNS/lightningstream/lmdbenv"
 	"github.com/PowerDNS/lightningstream/lmdbenv/header"
@@ -115,6 +118,14 @@ func cmdC02(args []string) error {
 	}
 	R := NewResult()
 	concs := Concs()
+	if len(args) > 2 && args[2] == "loadonce-only" {
+		// C18: the documented meaning of every supported format version, through the real LoadOnce
+		if err := rowsThroughLoadOnce(R, rows, concs[0]); err != nil {
+			return err
+		}
+		R.Distinct = R.Counters["merge_rows_through_LoadOnce"]
+		return Emit(R)
+	}
 
 	// (T) every row of the Merge table on the real NativeIterator.Merge
 	for _, row := range rows {
@@ -164,6 +175,13 @@ func cmdC02(args []string) error {
 			}
 		}
 		R.Distinct++
+	}
+
+	// (L) the rows of the remote-merge use (no default timestamp, no stale-marker cutoff) through the real LoadOnce
+	// of a native-mode Syncer with the shipped defaults: what LoadOnce hands to the iterator (format version,
+	// default timestamp, cutoff, transaction id) is part of the merge the user gets
+	if err := rowsThroughLoadOnce(R, rows, concs[0]); err != nil {
+		return err
 	}
 
 	// (R) all pairs and triples, in all orders, through strategy.Update on a real LMDB
@@ -409,5 +427,95 @@ func ordersOnLMDB(R *Result, rows []mergeRow, beats map[[2]Ver]bool, concs []Con
 		CloseEnv(env, dir)
 	}
 	R.Sample(map[string]interface{}{"order_case": map[string]interface{}{"old": cases[nPairs+7].old, "versions": cases[nPairs+7].vers}})
+	return nil
+}
+
+func rowsThroughLoadOnce(R *Result, rows []mergeRow, c Conc) error {
+	w, err := NewWorld(true, nil, c, KeyConcs()[0], R)
+	if err != nil {
+		return err
+	}
+	defer w.Close()
+	if err := w.AddInst(1, false); err != nil {
+		return err
+	}
+	in := w.Insts[1]
+	key := []byte("k")
+	var last header.TxnID
+	for _, row := range rows {
+		if row.Ctx.DefTS != 0 || row.Ctx.Cutoff != 0 {
+			continue
+		}
+		var oldval []byte
+		err := in.Env.Update(func(txn *lmdb.Txn) error {
+			dbi, err := txn.OpenDBI(w.DBIName, lmdb.Create)
+			if err != nil {
+				return err
+			}
+			oldval = c.StoredBytes(row.Old, uint64(txn.ID()))
+			if oldval == nil {
+				err = txn.Del(dbi, key, nil)
+				if lmdb.IsNotFound(err) {
+					err = nil
+				}
+				return err
+			}
+			return txn.Put(dbi, key, oldval, 0)
+		})
+		if err != nil {
+			return err
+		}
+		d := oneEntryDBI(c.KVOf(key, row.In))
+		d.SetName(w.DBIName)
+		snap := &snapshot.Snapshot{FormatVersion: uint32(row.Ctx.Fmt), CompatVersion: 1}
+		snap.Meta.DatabaseName = "default"
+		snap.Meta.InstanceID = "remote"
+		snap.Meta.TimestampNano = uint64(time.Now().UnixNano())
+		snap.Databases = append(snap.Databases, d)
+		ni := snapshot.NameInfo{Kind: snapshot.KindSnapshot, Extension: snapshot.DefaultExtension, SyncerName: "default",
+			InstanceID: "remote", GenerationID: "GX", Timestamp: time.Now()}
+		ni.FullName = ni.BuildName()
+		txnID, _, err := in.S.LoadOnce(context.Background(), in.Env, "remote", snapshot.Update{Snapshot: snap, NameInfo: ni}, last)
+		R.Evaluations++
+		R.Counters["merge_rows_through_LoadOnce"]++
+		sig := map[string]interface{}{"class": "merge-row-loadonce", "old_del": row.Old.Del, "in_del": row.In.Del, "in_ts0": row.In.TS == 0, "fmt": row.Ctx.Fmt}
+		if err != nil {
+			R.Bad(row, sig, "LoadOnce failed: %v", err)
+			continue
+		}
+		last = txnID
+		var out []byte
+		_ = in.Env.View(func(txn *lmdb.Txn) error {
+			dbi, err := txn.OpenDBI(w.DBIName, 0)
+			if err != nil {
+				return nil
+			}
+			v, err := txn.Get(dbi, key)
+			if err == nil {
+				out = append([]byte(nil), v...)
+			}
+			return nil
+		})
+		res, err := c.AbsStored(out)
+		tag := "rewritten"
+		switch {
+		case out == nil:
+			tag = "dropped"
+		case bytes.Equal(out, oldval):
+			tag = "untouched"
+		default:
+			if e := WellFormedLSWrite(out, uint64(txnID), false); e != nil {
+				R.Bad(row, sig, "LoadOnce wrote a malformed value: %v", e)
+				continue
+			}
+		}
+		want := row.Tag
+		if want == "dropped" && !row.Old.Absent() {
+			want = "untouched"
+		}
+		if err != nil || res != row.Res || (tag != want && !(row.Tag == "dropped" && tag == "dropped")) {
+			R.Bad(row, sig, "through LoadOnce: stored %v/%s (%v), specification %v/%s (old=%v in=%+v fmt=%d)", res, tag, err, row.Res, row.Tag, row.Old, row.In, row.Ctx.Fmt)
+		}
+	}
 	return nil
 }
